@@ -157,7 +157,7 @@ fn md5_tap_big(_state: &mut [u32; 4], blocks: &[[u8; 64]]) {
 /// 65664 signed bytes, signature window [65500, 65572) crossing the 64 KiB unit boundary: the digest is fed
 /// the data with exactly the window zeroed - in particular the bytes right behind the window stay covered
 #[kani::proof]
-#[kani::unwind(80)]
+#[kani::unwind(200)]
 #[kani::stub(std::fmt::format, vio::fmt_stub)]
 #[kani::stub(md5::compress::compress, md5_tap_big)]
 fn c10b_digest_window_straddles_unit_boundary() {
